@@ -60,7 +60,7 @@ def tlc_deviation(ctx) -> list | None:
 
 
 class World:
-    def __init__(self, root, seed: int, npatch: int, n: int) -> None:
+    def __init__(self, root, seed: int, npatch: int, n: int, closed: str = "right") -> None:
         self.yaw = data.import_yaw()
         self.root = root
         self.npatch = npatch
@@ -70,10 +70,18 @@ class World:
         # patch 1 has no object in the highest redshift bin (an empty tree next to populated neighbours)
         sel = (dref["pid"] == 1) & (dref["z"] > 0.69)
         dref.loc[sel, "z"] = 0.2 + 0.4 * (dref.loc[sel, "z"] - 0.69)
+        self.config = self.yaw.Configuration.create(rmin=500.0, rmax=5000.0, zmin=0.1, zmax=1.0, num_bins=3, closed=closed)
+        drnd = data.frame(seed + 2, 2 * n, npatch, sep_deg=3.0, spread_deg=1.6)
+        # every 4th object sits exactly on a bin edge (outer edges included): the closed side must survive
+        # every process boundary (patch 1 keeps its empty highest bin: only the two lowest edges there)
+        edges = [float(e) for e in self.config.binning.edges]
+        for df in (dref, drnd):
+            for k in range(0, len(df), 4):
+                choice = edges[:2] if int(df.loc[k, "pid"]) == 1 else edges
+                df.loc[k, "z"] = choice[(k // 4) % len(choice)]
         self.ref = data.make_catalog(root / "ref", dref, centers)
         self.unk = data.make_catalog(root / "unk", data.frame(seed + 1, n, npatch, sep_deg=3.0, spread_deg=1.6), centers, redshifts=False)
-        self.rnd = data.make_catalog(root / "rnd", data.frame(seed + 2, 2 * n, npatch, sep_deg=3.0, spread_deg=1.6), centers)
-        self.config = self.yaw.Configuration.create(rmin=500.0, rmax=5000.0, zmin=0.1, zmax=1.0, num_bins=3)
+        self.rnd = data.make_catalog(root / "rnd", drnd, centers)
         self.tmp = root / "tmp"
 
     def fresh(self, which: str):
@@ -222,10 +230,10 @@ def run(ctx) -> None:
     with scratch("c05_") as root:
         worlds = {}
         # single-call entry points: exhaustive over TLC's terminal states
-        single = [("load", max_nt), ("build", max_nt), ("hist", max_nt)]
-        for ep, npatch in single:
+        single = [("load", max_nt, "left"), ("build", max_nt, "left"), ("hist", max_nt, "left"), ("build", 3, "right"), ("hist", 3, "right")]
+        for ep, npatch, closed in single:
             if npatch not in worlds:
-                worlds[npatch] = World(root / f"w{npatch}", ctx.seed + npatch, npatch, 60 if quick else 150)
+                worlds[npatch] = World(root / f"w{npatch}", ctx.seed + npatch, npatch, 60 if quick else 150, closed=closed)
             world = worlds[npatch]
             base = getattr(world, f"ep_{ep}")(1)
             for W in range(2, npatch + 2):
@@ -248,7 +256,7 @@ def run(ctx) -> None:
             ctx.extra["deviation_replay"] = dict(tlc=dev, replayed_order=order,
                                                  real_code_differs=(outcome[0] != "ok" or first_diff(outcome[1], base) is not None))
         # pair counting: P=3 fully linked -> auto NT=6 (exhaustive), cross NT=9 (sampled)
-        w3 = World(root / "pc", ctx.seed + 100, 3, 60 if quick else 150)
+        w3 = World(root / "pc", ctx.seed + 100, 3, 60 if quick else 150, closed="left")
         w3.prepare_trees()
         nt_auto = len(w3.links.get_patch_pairs(w3.cref))
         nt_cross = len(w3.links.get_patch_pairs(w3.cref, w3.cunk))
